@@ -294,7 +294,7 @@ Proof.
   intros Q. pose proof (try_pack_tight_iff ct pid sz q1) as T1. pose proof (try_pack_tight_iff ct pid sz q2) as T2.
   rewrite (qeq_currsz _ _ Q) in T1.
   destruct (try_pack ct pid sz q1) as [r1 t1] eqn:P1, (try_pack ct pid sz q2) as [r2 t2] eqn:P2. cbn [snd] in *.
-  assert (E : t1 = t2) by congruence. clear T1 T2. split; [exact E|]. intros F. subst t1. symmetry in E. subst t2.
+  assert (E : t1 = t2) by congruence. clear T1 T2. split; [exact E|]. intros F. rewrite <- E in P2. rewrite F in P1, P2. clear E F.
   apply try_pack_loose in P1. apply try_pack_loose in P2. destruct P1 as [-> _], P2 as [-> _].
   eexists _, _. repeat split. apply qeq_app; [assumption|reflexivity].
 Qed.
@@ -302,13 +302,13 @@ Qed.
 Lemma ff_connect : fire_and_forget CT_CONNECT = false. Proof. reflexivity. Qed.
 Lemma ff_pingreq : fire_and_forget CT_PINGREQ = false. Proof. reflexivity. Qed.
 
-Ltac ack_cases Q ct opid :=
+Ltac ack_cases Q ct opid qa qb :=
   let A := fresh "A" in
-  pose proof (ack_first_qeq (matches ct opid) _ _ Q) as A;
+  pose proof (ack_first_qeq (matches ct opid) qa qb Q) as A;
   match type of A with (?P -> _) =>
     let HP := fresh in assert (HP : P) by (intros ? ? ?; apply matches_strip; [intro; try discriminate; auto using ff_connect, ff_pingreq | assumption]);
     specialize (A HP); clear HP end;
-  match type of A with match ?x, ?y with _ => _ end => destruct x, y; try contradiction end.
+  destruct (ack_first (matches ct opid) qa), (ack_first (matches ct opid) qb); try contradiction.
 
 Lemma hrel_simple a1 a2 d e : qeq a1 a2 -> hrel (a1, d, e, false) (a2, d, e, false).
 Proof. intros; split; auto. Qed.
@@ -316,7 +316,7 @@ Proof. intros; split; auto. Qed.
 Lemma handle_qeq r q1 q2 : qeq q1 q2 -> hrel (handle r q1) (handle r q2).
 Proof.
   intros Q. destruct r as [code|dup qos retain toff tlen poff plen pid|ct pid|pid code0|pid|]; cbn [handle].
-  - ack_cases Q CT_CONNECT (@None Z); [|apply hrel_simple; assumption].
+  - ack_cases Q CT_CONNECT (@None Z) q1 q2; [|apply hrel_simple; assumption].
     destruct (code =? CONNACK_ACCEPTED); [apply hrel_simple; assumption|].
     destruct (code =? CONNACK_ID_REJECTED); apply hrel_simple; assumption.
   - destruct (qos =? 1).
@@ -335,27 +335,490 @@ Proof.
     + destruct r1, r2; split; auto; discriminate.
     + destruct (T eq_refl) as (a1 & a2 & -> & -> & QQ). apply hrel_simple; assumption.
   - destruct (ct =? CT_PUBACK).
-    { ack_cases Q CT_PUBLISH (Some pid); apply hrel_simple; assumption. }
+    { ack_cases Q CT_PUBLISH (Some pid) q1 q2; apply hrel_simple; assumption. }
     destruct (ct =? CT_PUBREC).
     { rewrite (existsb_qeq (matches CT_PUBREL (Some pid)) q1 q2 Q)
         by (intros; apply matches_strip; [intro; discriminate|assumption]).
       destruct (existsb _ q2); [apply hrel_simple; assumption|].
-      ack_cases Q CT_PUBLISH (Some pid); [|apply hrel_simple; assumption].
+      ack_cases Q CT_PUBLISH (Some pid) q1 q2; [|apply hrel_simple; assumption].
       pose proof (try_pack_qeq CT_PUBREL pid 4 _ _ A) as T.
       destruct (try_pack CT_PUBREL pid 4 l) as [r1 t1], (try_pack CT_PUBREL pid 4 l0) as [r2 t2].
       destruct T as [-> T]. destruct t2.
       - destruct r1, r2; split; auto; discriminate.
       - destruct (T eq_refl) as (a1 & a2 & -> & -> & QQ). apply hrel_simple; assumption. }
     destruct (ct =? CT_PUBREL).
-    { ack_cases Q CT_PUBREC (Some pid); [|apply hrel_simple; assumption].
+    { ack_cases Q CT_PUBREC (Some pid) q1 q2; [|apply hrel_simple; assumption].
       pose proof (try_pack_qeq CT_PUBCOMP pid 4 _ _ A) as T.
       destruct (try_pack CT_PUBCOMP pid 4 l) as [r1 t1], (try_pack CT_PUBCOMP pid 4 l0) as [r2 t2].
       destruct T as [-> T]. destruct t2.
       - destruct r1, r2; split; auto; discriminate.
       - destruct (T eq_refl) as (a1 & a2 & -> & -> & QQ). apply hrel_simple; assumption. }
-    ack_cases Q CT_PUBREL (Some pid); apply hrel_simple; assumption.
-  - ack_cases Q CT_SUBSCRIBE (Some pid); [|apply hrel_simple; assumption].
+    ack_cases Q CT_PUBREL (Some pid) q1 q2; apply hrel_simple; assumption.
+  - ack_cases Q CT_SUBSCRIBE (Some pid) q1 q2; [|apply hrel_simple; assumption].
     destruct (code0 =? SUBACK_FAILURE); apply hrel_simple; assumption.
-  - ack_cases Q CT_UNSUBSCRIBE (Some pid); apply hrel_simple; assumption.
-  - ack_cases Q CT_PINGREQ (@None Z); apply hrel_simple; assumption.
+  - ack_cases Q CT_UNSUBSCRIBE (Some pid) q1 q2; apply hrel_simple; assumption.
+  - ack_cases Q CT_PINGREQ (@None Z) q1 q2; apply hrel_simple; assumption.
+Qed.
+
+(* ------------------------------------------------------------------------------------------ *)
+(* slices handed to the publish callback *)
+Lemma unpack_publish_slices b d q rt toff tlen poff plen pid c : bytes_ok b ->
+  unpack FIXED b = UOk (RPublish d q rt toff tlen poff plen pid) c ->
+  2 <= toff /\ 0 <= tlen /\ toff + tlen <= poff /\ 0 <= plen /\ poff + plen = c /\ c <= len b /\
+  0 <= q <= 2 /\ (q = 0 -> poff = toff + tlen) /\ (0 < q -> poff = toff + tlen + 2 /\ pid = be16 b (toff + tlen)).
+Proof.
+  intros OK. unfold unpack. destruct (unpack_header b) as [|e|ct fl rl h] eqn:H; try discriminate.
+  destruct (header_shape b ct fl rl h OK H) as (Hh & Hhl & Hrl & Hfl).
+  destruct ((len b - h <? rl) || (RECVBUF <? h + rl)) eqn:C; [discriminate|].
+  apply orb_false_elim in C. destruct C as [C1 C2]. apply Z.ltb_ge in C1. apply Z.ltb_ge in C2.
+  destruct (ct =? CT_CONNACK).
+  { destruct (negb _); [discriminate|]. destruct (negb _); [discriminate|]. destruct (5 <? _); discriminate. }
+  destruct (ct =? CT_PUBLISH).
+  2:{ destruct (_ || _ || _ || _). { destruct (negb _); discriminate. }
+      destruct (ct =? CT_SUBACK). { destruct (rl <? 3); discriminate. }
+      destruct (ct =? CT_UNSUBACK). { destruct (negb _); discriminate. }
+      destruct (ct =? CT_PINGRESP). { destruct (_ && _); discriminate. }
+      discriminate. }
+  rewrite unpack_publish_fixed. cbv zeta.
+  assert (Q4 : 0 <= (fl / 2) mod 4 < 4) by (apply Z.mod_pos_bound; lia).
+  destruct ((fl / 2) mod 4 =? 3) eqn:Q3; [discriminate|]. apply Z.eqb_neq in Q3.
+  destruct (rl <? 2) eqn:R2; [discriminate|]. apply Z.ltb_ge in R2.
+  pose proof (be16_range b h OK) as T. pose proof (cf_recvbuf_hi consts_ok) as RH.
+  destruct (0 <? (fl / 2) mod 4) eqn:Q0.
+  - apply Z.ltb_lt in Q0. destruct (rl <? be16 b h + 4) eqn:R3; [discriminate|]. apply Z.ltb_ge in R3.
+    intros E; inversion E; subst; clear E. rewrite u32_small by lia. repeat split; try lia.
+  - apply Z.ltb_ge in Q0. destruct (rl <? be16 b h + 2) eqn:R3; [discriminate|]. apply Z.ltb_ge in R3.
+    intros E; inversion E; subst; clear E. rewrite u32_small by lia. repeat split; try lia.
+Qed.
+
+Lemma slice_inside b off n : 0 <= off -> 0 <= n -> off + n <= len b -> slice b off n = take n (drop off b).
+Proof. intros. unfold slice. f_equal. lia. Qed.
+Lemma slice_app b x off n : 0 <= off -> 0 <= n -> off + n <= len b -> slice (b ++ x) off n = slice b off n.
+Proof.
+  intros. rewrite !slice_inside by (rewrite ?len_app; pose proof (len_nonneg x); lia).
+  rewrite drop_app_le by lia. apply take_app_le. rewrite len_drop by lia. lia.
+Qed.
+
+Lemma rx_of_app a b : rx_of (a ++ b) = rx_of a ++ rx_of b.
+Proof. induction a as [|o a IH]; [reflexivity|]. destruct o; cbn [app rx_of]; rewrite ?IH; reflexivity. Qed.
+
+Lemma msg_of_app b x r c : bytes_ok b -> unpack FIXED b = UOk r c -> rx_of (msg_of (b ++ x) r) = rx_of (msg_of b r).
+Proof.
+  intros OK U. destruct r; try reflexivity. cbn [msg_of rx_of].
+  destruct (unpack_publish_slices _ _ _ _ _ _ _ _ _ _ OK U) as (A & B & C & D & E & F & _).
+  rewrite !slice_app by lia. reflexivity.
+Qed.
+
+(* ------------------------------------------------------------------------------------------ *)
+(* the packet loop *)
+Lemma length_drop_lt (b : list Z) c : 1 <= c <= len b -> (length (drop c b) < length b)%nat.
+Proof. intros. pose proof (len_drop c b ltac:(lia)) as L. unfold len in *. lia. Qed.
+
+Lemma drain_S k fx q b : drain (S k) fx q b =
+    match unpack fx b with
+    | UInc => {| d_q := q; d_rest := b; d_moved := []; d_out := [];
+                 d_stop := if RECVBUF <=? len b then Failed E_RECV_BUFFER_TOO_SMALL else Wait; d_tight := false |}
+    | UErr e => {| d_q := q; d_rest := b; d_moved := []; d_out := []; d_stop := Failed e; d_tight := false |}
+    | UOk r c =>
+      match handle r q with
+      | (q', dl, oe, t) =>
+        let o := if dl then msg_of b r else [] in
+        if len b <? c then
+          {| d_q := q'; d_rest := b; d_moved := []; d_out := o; d_stop := Crashed; d_tight := t |}
+        else
+        match oe with
+        | Some e => {| d_q := q'; d_rest := drop c b; d_moved := drop (len b - c) b; d_out := o; d_stop := Failed e; d_tight := t |}
+        | None =>
+          let d := drain k fx q' (drop c b) in
+          {| d_q := d_q d; d_rest := d_rest d; d_moved := d_moved d ++ drop (len b - c) b;
+             d_out := o ++ d_out d; d_stop := d_stop d; d_tight := t || d_tight d |}
+        end
+      end
+    end.
+Proof. reflexivity. Qed.
+
+Lemma drain_fuel f1 : forall f2 q b, bytes_ok b -> (length b < f1)%nat -> (length b < f2)%nat ->
+  drain f1 FIXED q b = drain f2 FIXED q b.
+Proof.
+  induction f1 as [|k1 IH]; intros f2 q b OK L1 L2; [lia|]. destruct f2 as [|k2]; [lia|]. cbn [drain].
+  destruct (unpack FIXED b) as [|e|r c] eqn:U; try reflexivity.
+  destruct (handle r q) as [[[q' dl] oe] t].
+  destruct (unpack_consumed b r c OK U) as [C1 C2].
+  destruct (len b <? c); [reflexivity|]. destruct oe; [reflexivity|].
+  pose proof (length_drop_lt b c ltac:(lia)).
+  rewrite (IH k2 q' (drop c b)) by (try apply bytes_ok_drop; auto; lia). reflexivity.
+Qed.
+
+Lemma drain_qeq f : forall q1 q2 b, qeq q1 q2 ->
+  let d1 := drain f FIXED q1 b in let d2 := drain f FIXED q2 b in
+  d_tight d1 = d_tight d2 /\
+  (d_tight d1 = false -> qeq (d_q d1) (d_q d2) /\ d_rest d1 = d_rest d2 /\ d_out d1 = d_out d2 /\ d_stop d1 = d_stop d2 /\ d_moved d1 = d_moved d2).
+Proof.
+  induction f as [|k IH]; intros q1 q2 b Q; cbn [drain].
+  - cbn. auto 10.
+  - destruct (unpack FIXED b) as [|e|r c] eqn:U; cbn; [auto 10|auto 10|].
+    pose proof (handle_qeq r q1 q2 Q) as HR. unfold hrel in HR.
+    destruct (handle r q1) as [[[a1 dl1] e1] t1], (handle r q2) as [[[a2 dl2] e2] t2]. destruct HR as [-> HR].
+    destruct t2.
+    + (* compacted: both flagged *)
+      destruct (len b <? c); cbn; [split; [reflexivity|discriminate]|].
+      destruct e1, e2; cbn; split; try reflexivity; discriminate.
+    + destruct (HR eq_refl) as (QQ & -> & ->). clear HR.
+      destruct (len b <? c); cbn; [auto 10|].
+      destruct e2; cbn; [auto 10|].
+      specialize (IH a1 a2 (drop c b) QQ). cbv zeta in IH. destruct IH as [T IH]. split; [exact T|].
+      intros F. destruct (IH F) as (A & B & C & D & E). rewrite B, C, D, E. auto.
+Qed.
+
+Definition continues (s : stop) : bool := match s with Wait => true | _ => false end.
+
+Lemma drain_app f : forall q b x f', bytes_ok b -> bytes_ok x -> (length b < f)%nat -> (length (b ++ x) < f')%nat ->
+  let d1 := drain f FIXED q b in
+  let d := drain f' FIXED q (b ++ x) in
+  if continues (d_stop d1) then
+    let d2 := drain (S (length (d_rest d1 ++ x))) FIXED (d_q d1) (d_rest d1 ++ x) in
+    d_q d = d_q d2 /\ d_rest d = d_rest d2 /\ rx_of (d_out d) = rx_of (d_out d1) ++ rx_of (d_out d2) /\
+    d_stop d = d_stop d2 /\ d_tight d = d_tight d1 || d_tight d2
+  else d_q d = d_q d1 /\ rx_of (d_out d) = rx_of (d_out d1) /\ d_stop d = d_stop d1 /\ d_tight d = d_tight d1.
+Proof.
+  induction f as [|k IH]; intros q b x f' OKb OKx L L'; [lia|]. destruct f' as [|k']; [lia|].
+  cbv zeta. rewrite (drain_S k FIXED q b). destruct (unpack FIXED b) as [|e|r c] eqn:U.
+  - (* incomplete *)
+    destruct (RECVBUF <=? len b) eqn:TS; cbn [d_stop continues].
+    + apply Z.leb_le in TS. rewrite drain_S, (unpack_stable_toosmall b x OKb U TS).
+      replace (RECVBUF <=? len (b ++ x)) with true by (symmetry; apply Z.leb_le; rewrite len_app; pose proof (len_nonneg x); lia).
+      cbn. auto.
+    + cbn [d_rest d_q d_out d_tight rx_of app orb].
+      rewrite (drain_fuel (S k') (S (length (b ++ x))) q (b ++ x)) by (try apply bytes_ok_app; auto; lia).
+      auto.
+  - rewrite drain_S, (unpack_stable b x _ OKb U) by discriminate. cbn. auto.
+  - rewrite (drain_S k'), (unpack_stable b x _ OKb U) by discriminate.
+    destruct (unpack_consumed b r c OKb U) as [C1 C2].
+    destruct (handle r q) as [[[q' dl] oe] t]. cbv zeta.
+    replace (len b <? c) with false by (symmetry; apply Z.ltb_ge; lia).
+    replace (len (b ++ x) <? c) with false by (symmetry; apply Z.ltb_ge; rewrite len_app; pose proof (len_nonneg x); lia).
+    assert (MO : rx_of (if dl then msg_of (b ++ x) r else []) = rx_of (if dl then msg_of b r else []))
+      by (destruct dl; [apply (msg_of_app b x r c OKb U)|reflexivity]).
+    destruct oe as [e|].
+    + cbn. auto.
+    + rewrite (drop_app_le c b x) by lia.
+      pose proof (length_drop_lt b c ltac:(lia)) as LD.
+      assert (LD' : (length (drop c b ++ x) < k')%nat).
+      { rewrite app_length in *. lia. }
+      specialize (IH q' (drop c b) x k' (bytes_ok_drop c b OKb) OKx ltac:(lia) LD'). cbv zeta in IH.
+      cbn [d_stop d_q d_rest d_out d_tight].
+      destruct (continues (d_stop (drain k FIXED q' (drop c b)))).
+      * destruct IH as (A & B & C & D & E). rewrite A, B, D, E, !rx_of_app, C, MO, app_assoc, orb_assoc. auto.
+      * destruct IH as (A & C & D & E). rewrite A, D, E, !rx_of_app, C, MO. auto.
+Qed.
+
+Lemma drain_rest f : forall q b, bytes_ok b -> (length b < f)%nat ->
+  let d := drain f FIXED q b in
+  bytes_ok (d_rest d) /\ len (d_rest d) <= len b /\ d_stop d <> Crashed /\
+  (d_stop d = Wait -> len (d_rest d) < RECVBUF /\ unpack FIXED (d_rest d) = UInc) /\
+  len (d_rest d) + len (d_moved d) = len b.
+Proof.
+  induction f as [|k IH]; intros q b OK L; [lia|]. cbv zeta. rewrite drain_S.
+  destruct (unpack FIXED b) as [|e|r c] eqn:U.
+  - cbn [d_rest d_stop d_moved]. rewrite len_nil. repeat split; auto; try lia.
+    + destruct (RECVBUF <=? len b); discriminate.
+    + destruct (RECVBUF <=? len b) eqn:E; [discriminate|]. apply Z.leb_gt in E. lia.
+  - cbn [d_rest d_stop d_moved]. rewrite len_nil. repeat split; auto; try lia; discriminate.
+  - destruct (unpack_consumed b r c OK U) as [C1 C2].
+    destruct (handle r q) as [[[q' dl] oe] t]. cbv zeta.
+    replace (len b <? c) with false by (symmetry; apply Z.ltb_ge; lia).
+    destruct oe as [e|].
+    + cbn [d_rest d_stop d_moved]. rewrite !len_drop by lia. repeat split; try apply bytes_ok_drop; auto; try lia; discriminate.
+    + pose proof (length_drop_lt b c ltac:(lia)) as LD.
+      specialize (IH q' (drop c b) (bytes_ok_drop c b OK) ltac:(lia)). cbv zeta in IH.
+      destruct IH as (A & B & C & D & E). cbn [d_rest d_stop d_moved].
+      rewrite len_drop in B, E by lia. rewrite len_app, len_drop by lia.
+      split; [auto|]. split; [lia|]. split; [auto|]. split; [exact D|]. lia.
+Qed.
+
+(* ------------------------------------------------------------------------------------------ *)
+(* mqtt_sync and the receive callback *)
+Lemma rx_of_sent l : rx_of (map sent_out l) = [].
+Proof. induction l as [|e l IH]; [reflexivity|]. cbn [map rx_of]. unfold sent_out at 1. destruct (_ && _); exact IH. Qed.
+Lemma send_qeq q : qeq (fst (send q)) q.
+Proof.
+  unfold send, qeq; cbn [fst]. rewrite map_map. apply map_ext. intros e. destruct (unsent e); reflexivity.
+Qed.
+
+Lemma sync_spec s : bytes_ok (buf s) ->
+  let d := drain (S (length (buf s))) FIXED (mq s) (buf s) in
+  let '(s', o) := sync FIXED s in
+  rx_of o = rx_of (d_out d) ++ rx_of_stop (d_stop d) /\ buf s' = d_rest d /\ qeq (mq s') (d_q d) /\
+  halted s' = negb (continues (d_stop d)) /\ stale s' = d_moved d ++ stale s.
+Proof.
+  intros OK. cbv zeta. unfold sync.
+  destruct (d_stop (drain (S (length (buf s))) FIXED (mq s) (buf s))) eqn:ST.
+  - pose proof (send_qeq (d_q (drain (S (length (buf s))) FIXED (mq s) (buf s)))) as SQ.
+    destruct (send _) as [q' so] eqn:SE. cbn [fst] in SQ. cbn [buf mq halted stale continues negb rx_of_stop].
+    unfold send in SE. inversion SE; subst. rewrite rx_of_app, rx_of_sent. auto.
+  - cbn [buf mq halted stale continues negb rx_of_stop]. rewrite rx_of_app. cbn [rx_of]. auto using qeq_refl.
+  - cbn [buf mq halted stale continues negb rx_of_stop]. rewrite rx_of_app. cbn [rx_of]. auto using qeq_refl.
+Qed.
+
+Lemma orb_false_l' a b : a || b = false -> a = false /\ b = false.
+Proof. destruct a, b; auto. Qed.
+
+Lemma feed_refines fuel : forall s chunk q0,
+  bytes_ok (buf s) -> bytes_ok chunk -> len (buf s) < RECVBUF -> qeq (mq s) q0 -> (length chunk < fuel)%nat ->
+  let d := drain (S (length (buf s ++ chunk))) FIXED q0 (buf s ++ chunk) in
+  d_tight d = false ->
+  let '(s', o) := feed fuel FIXED s chunk in
+  rx_of o = rx_of (d_out d) ++ rx_of_stop (d_stop d) /\ qeq (mq s') (d_q d) /\
+  halted s' = negb (continues (d_stop d)) /\ bytes_ok (buf s') /\
+  (continues (d_stop d) = true -> buf s' = d_rest d /\ len (buf s') < RECVBUF).
+Proof.
+  induction fuel as [|k IH]; intros s chunk q0 OKb OKc LB Q LF; [lia|]. cbv zeta. intros TI. cbn [feed].
+  set (n := if len chunk <? RECVBUF - len (buf s) then len chunk else RECVBUF - len (buf s)).
+  assert (Hn : 0 <= n <= len chunk /\ (n < len chunk -> n = RECVBUF - len (buf s)) /\ (0 < len chunk -> 0 < n)).
+  { unfold n. pose proof (len_nonneg chunk). destruct (len chunk <? RECVBUF - len (buf s)) eqn:E;
+    [apply Z.ltb_lt in E|apply Z.ltb_ge in E]; lia. }
+  set (piece := take n chunk). set (rest := drop n chunk).
+  assert (CH : chunk = piece ++ rest) by (symmetry; apply take_drop).
+  assert (OKp : bytes_ok piece) by (apply bytes_ok_take; assumption).
+  assert (OKr : bytes_ok rest) by (apply bytes_ok_drop; assumption).
+  assert (OKbp : bytes_ok (buf s ++ piece)) by (apply bytes_ok_app; auto).
+  pose proof (sync_spec (put s piece)) as SS. cbn [put buf mq] in SS. specialize (SS OKbp). cbv zeta in SS.
+  destruct (sync FIXED (put s piece)) as [s1 o1].
+  destruct SS as (S1 & S2 & S3 & S4 & _).
+  (* the same loop on the abstract queue q0 *)
+  pose proof (drain_qeq (S (length (buf s ++ piece))) (mq s) q0 (buf s ++ piece) Q) as DQ. cbv zeta in DQ.
+  set (d1 := drain (S (length (buf s ++ piece))) FIXED (mq s) (buf s ++ piece)) in *.
+  set (d1' := drain (S (length (buf s ++ piece))) FIXED q0 (buf s ++ piece)) in *.
+  pose proof (drain_app (S (length (buf s ++ piece))) q0 (buf s ++ piece) rest (S (length ((buf s ++ piece) ++ rest)))
+                OKbp OKr ltac:(lia) ltac:(lia)) as DA. cbv zeta in DA. fold d1' in DA.
+  rewrite <- app_assoc, <- CH in DA.
+  set (d := drain (S (length (buf s ++ chunk))) FIXED q0 (buf s ++ chunk)) in *.
+  destruct DQ as [T1 DQ].
+  destruct (continues (d_stop d1')) eqn:CO.
+  - (* the first piece ends waiting for more data *)
+    destruct DA as (A & B & C & D & E). rewrite E in TI. apply orb_false_l' in TI. destruct TI as [TI1 TI2].
+    rewrite <- T1 in TI1. destruct (DQ TI1) as (Q1 & R1 & O1 & ST1 & _).
+    assert (H1 : halted s1 = false) by (rewrite S4, ST1, CO; reflexivity).
+    pose proof (drain_rest (S (length (buf s ++ piece))) q0 (buf s ++ piece) OKbp ltac:(lia)) as DR. cbv zeta in DR. fold d1' in DR.
+    destruct DR as (DR1 & DR2 & _ & DR4 & _).
+    assert (W : d_stop d1' = Wait) by (destruct (d_stop d1'); try discriminate; reflexivity).
+    destruct (DR4 W) as [DR5 DR6].
+    destruct (0 <? len rest) eqn:LR; cbn [andb].
+    + rewrite H1. cbn [negb]. apply Z.ltb_lt in LR.
+      assert (LK : (length rest < k)%nat).
+      { pose proof (len_drop n chunk ltac:(lia)) as LL. fold rest in LL. unfold len in LL, LR, Hn. lia. }
+      specialize (IH s1 rest (d_q d1') ltac:(rewrite S2, R1; exact DR1) OKr ltac:(rewrite S2, R1; exact DR5)
+                     (qeq_trans _ _ _ S3 Q1) LK). cbv zeta in IH.
+      rewrite S2, R1 in IH. specialize (IH TI2).
+      destruct (feed k FIXED s1 rest) as [s2 o2]. destruct IH as (I1 & I2 & I3 & I4 & I5).
+      rewrite rx_of_app, S1, I1, O1, ST1, W, C, D, A, B. cbn [rx_of_stop]. rewrite app_nil_r, app_assoc. auto.
+    + (* nothing left: the whole chunk was the piece *)
+      apply Z.ltb_ge in LR. assert (RN : rest = []).
+      { destruct rest; [reflexivity|]. rewrite len_cons in LR. pose proof (len_nonneg rest). lia. }
+      assert (PC : piece = chunk) by (rewrite CH, RN, app_nil_r; reflexivity).
+      assert (DD : d = d1').
+      { unfold d, d1'. rewrite PC. reflexivity. }
+      rewrite DD, S1, O1, ST1. rewrite S4, ST1. rewrite S2, R1. split; [reflexivity|]. split; [exact (qeq_trans _ _ _ S3 Q1)|].
+      split; [reflexivity|]. split; [exact DR1|]. intros _. auto.
+  - (* the first piece ends the session *)
+    destruct DA as (A & C & D & E). rewrite E in TI. rewrite <- T1 in TI. destruct (DQ TI) as (Q1 & R1 & O1 & ST1 & _).
+    assert (H1 : halted s1 = true) by (rewrite S4, ST1, CO; reflexivity).
+    rewrite H1, andb_false_r. rewrite S1, O1, ST1, C, D. split; [reflexivity|]. rewrite A. split; [exact (qeq_trans _ _ _ S3 Q1)|].
+    rewrite CO. split; [rewrite H1; reflexivity|]. split; [|discriminate].
+    rewrite S2, R1. pose proof (drain_rest (S (length (buf s ++ piece))) q0 (buf s ++ piece) OKbp ltac:(lia)) as DR.
+    cbv zeta in DR. apply DR.
+Qed.
+
+(* ------------------------------------------------------------------------------------------ *)
+(* refinement: any segmentation of a byte stream is handled like the unsegmented stream *)
+Record ready (s : st) : Prop := {
+  rd_ok : bytes_ok (buf s);
+  rd_len : len (buf s) < RECVBUF;
+  rd_inc : unpack FIXED (buf s) = UInc;
+  rd_run : halted s = false }.
+
+Lemma run_halted evs : forall s, halted s = true -> run_from FIXED s evs = (s, []).
+Proof.
+  induction evs as [|e evs IH]; intros s H; [reflexivity|]. cbn [run_from]. unfold step. rewrite H.
+  rewrite (IH s H). reflexivity.
+Qed.
+
+Lemma continues_wait s : continues s = true <-> s = Wait.
+Proof. destruct s; cbn; split; congruence. Qed.
+
+Theorem C16_refines_thm : forall segs s q0,
+  ready s -> Forall bytes_ok segs -> qeq (mq s) q0 ->
+  let d := parse_stream q0 (buf s ++ concat segs) in
+  d_tight d = false ->
+  let r := run_from FIXED s (map Seg segs) in
+  rx_of (snd r) = rx_of (d_out d) ++ rx_of_stop (d_stop d) /\ qeq (mq (fst r)) (d_q d) /\
+  (d_stop d = Wait -> ready (fst r) /\ buf (fst r) = d_rest d) /\ (d_stop d <> Wait -> halted (fst r) = true).
+Proof.
+  induction segs as [|c segs IH]; intros s q0 R OKs Q; unfold parse_stream.
+  - cbn [concat map run_from fst snd rx_of]. rewrite app_nil_r. destruct R as [R1 R2 R3 R4].
+    rewrite drain_S, R3. replace (RECVBUF <=? len (buf s)) with false by (symmetry; apply Z.leb_gt; lia).
+    cbn. intros _. repeat split; auto; congruence.
+  - cbv zeta. intros TI. cbn [concat] in TI. cbn [map run_from concat]. unfold step. destruct R as [R1 R2 R3 R4]. rewrite R4.
+    cbn [fx_recv FIXED]. inversion OKs as [|? ? OKc OKr]; subst.
+    assert (OKcat : bytes_ok (concat segs)).
+    { clear - OKr. induction OKr; cbn [concat]; [constructor|apply bytes_ok_app; auto]. }
+    pose proof (feed_refines (S (S (length c))) s c q0 R1 OKc R2 Q ltac:(lia)) as FR. cbv zeta in FR.
+    pose proof (drain_app (S (length (buf s ++ c))) q0 (buf s ++ c) (concat segs) (S (length ((buf s ++ c) ++ concat segs)))
+                  ltac:(apply bytes_ok_app; auto) OKcat ltac:(lia) ltac:(lia)) as DA. cbv zeta in DA.
+    rewrite <- app_assoc in DA.
+    set (d1 := drain (S (length (buf s ++ c))) FIXED q0 (buf s ++ c)) in *.
+    set (d := drain (S (length (buf s ++ c ++ concat segs))) FIXED q0 (buf s ++ c ++ concat segs)) in *.
+    destruct (continues (d_stop d1)) eqn:CO.
+    + destruct DA as (A & B & C & D & E). rewrite E in TI. apply orb_false_l' in TI. destruct TI as [TI1 TI2].
+      specialize (FR TI1). destruct (feed (S (S (length c))) FIXED s c) as [s1 o1].
+      destruct FR as (F1 & F2 & F3 & F4 & F5). destruct (F5 eq_refl) as [F6 F7].
+      pose proof (drain_rest (S (length (buf s ++ c))) q0 (buf s ++ c) ltac:(apply bytes_ok_app; auto) ltac:(lia)) as DR.
+      cbv zeta in DR. fold d1 in DR. destruct DR as (_ & _ & _ & DR4 & _).
+      apply continues_wait in CO. destruct (DR4 CO) as [_ DR6].
+      assert (R' : ready s1).
+      { constructor; [exact F4 | exact F7 | rewrite F6; exact DR6 | exact F3]. }
+      specialize (IH s1 (d_q d1) R' OKr F2). unfold parse_stream in IH. cbv zeta in IH. rewrite F6 in IH.
+      specialize (IH TI2). destruct (run_from FIXED s1 (map Seg segs)) as [s2 o2]. cbn [fst snd] in *.
+      destruct IH as (I1 & I2 & I3 & I4).
+      rewrite rx_of_app, F1, I1, C, CO, D, A, B. cbn [rx_of_stop]. rewrite app_nil_r, app_assoc. auto.
+    + destruct DA as (A & C & D & E). rewrite E in TI. specialize (FR TI).
+      destruct (feed (S (S (length c))) FIXED s c) as [s1 o1]. destruct FR as (F1 & F2 & F3 & F4 & F5).
+      cbn [negb] in F3. rewrite (run_halted _ s1 F3). cbn [fst snd]. rewrite app_nil_r.
+      rewrite F1, C, D, A. split; [reflexivity|]. split; [exact F2|]. split; [|auto].
+      intros W. rewrite W in CO. discriminate.
+Qed.
+
+(* two segmentations of the same bytes *)
+Theorem C16_segmentation_independent_thm : forall s segs1 segs2,
+  ready s -> Forall bytes_ok segs1 -> Forall bytes_ok segs2 -> concat segs1 = concat segs2 ->
+  d_tight (parse_stream (mq s) (buf s ++ concat segs1)) = false ->
+  let r1 := run_from FIXED s (map Seg segs1) in let r2 := run_from FIXED s (map Seg segs2) in
+  rx_of (snd r1) = rx_of (snd r2) /\ qeq (mq (fst r1)) (mq (fst r2)) /\ halted (fst r1) = halted (fst r2) /\
+  (halted (fst r1) = false -> buf (fst r1) = buf (fst r2)).
+Proof.
+  intros s segs1 segs2 R O1 O2 E TI. cbv zeta.
+  pose proof (C16_refines_thm segs1 s (mq s) R O1 (qeq_refl _)) as A. cbv zeta in A. specialize (A TI).
+  pose proof (C16_refines_thm segs2 s (mq s) R O2 (qeq_refl _)) as B. cbv zeta in B. rewrite <- E in B. specialize (B TI).
+  destruct A as (A1 & A2 & A3 & A4), B as (B1 & B2 & B3 & B4).
+  split; [congruence|]. split; [exact (qeq_trans _ _ _ A2 (qeq_sym _ _ B2))|].
+  destruct (d_stop (parse_stream (mq s) (buf s ++ concat segs1))) eqn:ST.
+  - destruct (A3 eq_refl) as [[_ _ _ H1] E1], (B3 eq_refl) as [[_ _ _ H2] E2]. split; [congruence|]. intros _. congruence.
+  - rewrite A4, B4 by discriminate. split; [reflexivity|discriminate].
+  - rewrite A4, B4 by discriminate. split; [reflexivity|discriminate].
+Qed.
+
+(* ------------------------------------------------------------------------------------------ *)
+(* memory safety and "slices inside the received data", for every history of events *)
+Definition out_ok (o : out) : Prop :=
+  match o with
+  | Msg _ qos _ toff tlen poff plen valid bytes =>
+      0 <= toff /\ 0 <= tlen /\ toff + tlen <= poff /\ 0 <= plen /\ poff + plen <= valid /\ valid <= RECVBUF /\
+      len bytes = tlen + plen /\ 0 <= qos <= 2
+  | Fault => False
+  | _ => True
+  end.
+
+Record inv (s : st) : Prop := {
+  inv_ok : bytes_ok (buf s);
+  inv_len : len (buf s) <= RECVBUF;
+  inv_stale : len (buf s) + len (stale s) = RECVBUF }.
+
+Definition ev_ok (e : ev) : Prop := match e with Seg c => bytes_ok c | _ => True end.
+
+Lemma msg_of_ok b r c : bytes_ok b -> len b <= RECVBUF -> unpack FIXED b = UOk r c -> Forall out_ok (msg_of b r).
+Proof.
+  intros OK L U. destruct r; cbn [msg_of]; try constructor; [|constructor].
+  destruct (unpack_publish_slices _ _ _ _ _ _ _ _ _ _ OK U) as (A & B & C & D & E & F & G & _).
+  cbn [out_ok]. rewrite len_app, !slice_inside by lia. rewrite !len_take, !len_drop by lia. repeat split; lia.
+Qed.
+
+Lemma drain_out_ok f : forall q b, bytes_ok b -> len b <= RECVBUF -> (length b < f)%nat -> Forall out_ok (d_out (drain f FIXED q b)).
+Proof.
+  induction f as [|k IH]; intros q b OK L LF; [lia|]. rewrite drain_S.
+  destruct (unpack FIXED b) as [|e|r c] eqn:U; [constructor|constructor|].
+  destruct (unpack_consumed b r c OK U) as [C1 C2].
+  destruct (handle r q) as [[[q' dl] oe] t]. cbv zeta.
+  replace (len b <? c) with false by (symmetry; apply Z.ltb_ge; lia).
+  assert (M : Forall out_ok (if dl then msg_of b r else [])) by (destruct dl; [apply (msg_of_ok b r c); auto|constructor]).
+  destruct oe; cbn [d_out]; [exact M|]. apply Forall_app. split; [exact M|].
+  pose proof (length_drop_lt b c ltac:(lia)).
+  apply IH; [apply bytes_ok_drop; auto|rewrite len_drop by lia; lia|lia].
+Qed.
+
+Lemma Forall_sent l : Forall out_ok (map sent_out l).
+Proof. induction l; cbn [map]; constructor; auto. unfold sent_out. destruct (_ && _); exact I. Qed.
+
+Lemma sync_inv s : inv s -> let '(s', o) := sync FIXED s in inv s' /\ Forall out_ok o /\
+  (halted s' = false -> len (buf s') < RECVBUF).
+Proof.
+  intros [I1 I2 I3].
+  pose proof (drain_rest (S (length (buf s))) (mq s) (buf s) I1 ltac:(lia)) as DR. cbv zeta in DR.
+  pose proof (drain_out_ok (S (length (buf s))) (mq s) (buf s) I1 I2 ltac:(lia)) as DO.
+  destruct DR as (D1 & D2 & D3 & D4 & D5). unfold sync.
+  set (d := drain (S (length (buf s))) FIXED (mq s) (buf s)) in *.
+  assert (IV : forall q h, inv {| buf := d_rest d; stale := d_moved d ++ stale s; mq := q; halted := h |}).
+  { intros; constructor; cbn [buf stale]; [exact D1|lia|rewrite len_app; lia]. }
+  destruct (d_stop d) eqn:ST.
+  - destruct (send (d_q d)) as [q' so] eqn:SE. unfold send in SE. inversion SE; subst.
+    split; [apply IV|]. split; [apply Forall_app; split; [exact DO|apply Forall_sent]|]. intros _. cbn [buf]. apply D4; reflexivity.
+  - split; [apply IV|]. split; [|discriminate]. apply Forall_app; split; [exact DO|]. repeat constructor.
+  - congruence.
+Qed.
+
+Lemma feed_inv fuel : forall s chunk, inv s -> bytes_ok chunk ->
+  let '(s', o) := feed fuel FIXED s chunk in inv s' /\ Forall out_ok o.
+Proof.
+  induction fuel as [|k IH]; intros s chunk I OKc; cbn [feed]; [split; [exact I|constructor]|].
+  set (n := if len chunk <? RECVBUF - len (buf s) then len chunk else RECVBUF - len (buf s)).
+  destruct I as [I1 I2 I3].
+  assert (Hn : 0 <= n <= len chunk /\ n <= RECVBUF - len (buf s)).
+  { unfold n. pose proof (len_nonneg chunk). destruct (len chunk <? RECVBUF - len (buf s)) eqn:E;
+    [apply Z.ltb_lt in E|apply Z.ltb_ge in E]; lia. }
+  assert (IP : inv (put s (take n chunk))).
+  { constructor; cbn [put buf stale].
+    - apply bytes_ok_app; split; [exact I1|apply bytes_ok_take; exact OKc].
+    - rewrite len_app, len_take by lia. lia.
+    - rewrite len_app, len_take, len_drop by (try rewrite len_take; lia). rewrite len_take by lia. lia. }
+  pose proof (sync_inv _ IP) as SI. destruct (sync FIXED (put s (take n chunk))) as [s1 o1]. destruct SI as (S1 & S2 & S3).
+  destruct ((0 <? len (drop n chunk)) && negb (halted s1)); [|auto].
+  specialize (IH s1 (drop n chunk) S1 (bytes_ok_drop n chunk OKc)).
+  destruct (feed k FIXED s1 (drop n chunk)) as [s2 o2]. destruct IH as [A B]. split; [exact A|]. apply Forall_app; auto.
+Qed.
+
+Lemma step_inv s e : inv s -> ev_ok e -> let '(s', o) := step FIXED s e in inv s' /\ Forall out_ok o.
+Proof.
+  intros I OK. unfold step. destruct (halted s); [split; [exact I|constructor]|].
+  destruct e as [n|c| |pid sz|]; cbn [fx_recv FIXED].
+  - split; [exact I|constructor].
+  - apply feed_inv; assumption.
+  - pose proof (sync_inv s I) as SI. destruct (sync FIXED s) as [s1 o1]. destruct SI as (S1 & S2 & S3).
+    destruct (halted s1); [auto|]. split; [|exact S2]. destruct S1; constructor; assumption.
+  - unfold device_pack. destruct (try_pack _ _ _ _) as [[q'|] t]; (split; [destruct I; constructor; assumption|repeat constructor]).
+  - unfold device_pack. destruct (try_pack _ _ _ _) as [[q'|] t]; (split; [destruct I; constructor; assumption|repeat constructor]).
+Qed.
+
+Lemma run_from_inv evs : forall s, inv s -> Forall ev_ok evs ->
+  let '(s', o) := run_from FIXED s evs in inv s' /\ Forall out_ok o.
+Proof.
+  induction evs as [|e evs IH]; intros s I OK; cbn [run_from]; [split; [exact I|constructor]|].
+  inversion OK; subst. pose proof (step_inv s e I ltac:(assumption)) as SI. destruct (step FIXED s e) as [s1 o1].
+  destruct SI as [S1 S2]. specialize (IH s1 S1 ltac:(assumption)). destruct (run_from FIXED s1 evs) as [s2 o2].
+  destruct IH. split; [assumption|apply Forall_app; auto].
+Qed.
+
+Lemma zeros_ok n : bytes_ok (zeros n).
+Proof. unfold zeros, bytes_ok. apply Forall_forall. intros x H. apply repeat_spec in H. subst. unfold byte_ok; lia. Qed.
+Lemma len_zeros n : 0 <= n -> len (zeros n) = n.
+Proof. intros; unfold len, zeros. rewrite repeat_length. lia. Qed.
+
+Theorem C16_safe_thm : forall evs, Forall ev_ok evs -> Forall out_ok (run FIXED evs).
+Proof.
+  intros evs OK. unfold run. destruct evs as [|e r]; [constructor|]. destruct e; try constructor.
+  inversion OK; subst. unfold boot.
+  assert (I0 : inv {| buf := []; stale := zeros RECVBUF;
+               mq := [{| ect := CT_CONNECT; epid := 0; esz := n; esent := false; eacked := false |}]; halted := false |}).
+  { pose proof (cf_recvbuf_lo consts_ok). constructor; cbn [buf stale]; [constructor|rewrite len_nil; lia|rewrite len_nil, len_zeros; lia]. }
+  pose proof (sync_inv _ I0) as SI. destruct (sync FIXED _) as [s1 o1]. destruct SI as (S1 & S2 & _).
+  pose proof (run_from_inv r s1 S1 ltac:(assumption)) as RI. destruct (run_from FIXED s1 r) as [s2 o2]. destruct RI.
+  cbn [snd]. apply Forall_app. split; [constructor; [exact I|exact S2]|assumption].
 Qed.
